@@ -306,13 +306,13 @@ Qed.
 
 Lemma get_candidates_some w m ids :
   get_candidates w m = Some ids ->
-  ids = map s_id (filter (is_candidate w (final w) m) (w_nodes w)).
+  ids = map s_id (filter (is_candidate w (final w) m) (final_nodes w)).
 Proof. unfold get_candidates. destruct (w_fault w); intros H; inversion H; reflexivity. Qed.
 
 (* Membership in the candidate set of a method is exactly: eligible (the property) and the
    method-independent technical requirements [extra_b]. *)
 Theorem candidate_iff_l : forall w m ids id, pdbs_wf w -> get_candidates w m = Some ids ->
-  (In id ids <-> exists n, In n (w_nodes w) /\ s_id n = id /\ eligible w (final w) m n /\ extra_b w m n = true).
+  (In id ids <-> exists n, In n (final_nodes w) /\ s_id n = id /\ eligible w (final w) m n /\ extra_b w m n = true).
 Proof.
   intros w m ids id wf H. apply get_candidates_some in H. subst ids.
   rewrite in_map_iff. split.
@@ -324,7 +324,7 @@ Proof.
 Qed.
 
 Theorem candidate_implies_eligible_l : forall w m ids id, pdbs_wf w -> get_candidates w m = Some ids ->
-  In id ids -> exists n, In n (w_nodes w) /\ s_id n = id /\ eligible w (final w) m n.
+  In id ids -> exists n, In n (final_nodes w) /\ s_id n = id /\ eligible w (final w) m n.
 Proof.
   intros w m ids id wf H Hin. destruct (proj1 (candidate_iff_l w m ids id wf H) Hin) as [n [H1 [H2 [H3 _]]]].
   exists n. auto.
@@ -337,7 +337,7 @@ Proof. unfold get_candidates. intros [H|H]; rewrite H; reflexivity. Qed.
 (* the oracle on observed candidate ids *)
 Theorem holds_m_spec w m ids :
   holds_m w m ids = true <->
-  forall id, In id ids -> exists n, In n (w_nodes w) /\ s_id n = id /\ eligible w (final w) m n.
+  forall id, In id ids -> exists n, In n (final_nodes w) /\ s_id n = id /\ eligible w (final w) m n.
 Proof.
   unfold holds_m. rewrite forallb_forall. split; intros H id Hid; specialize (H id Hid).
   - apply existsb_exists in H. destruct H as [n [Hn H]]. apply andb_true_iff in H. destruct H as [H1 H2].
@@ -364,7 +364,7 @@ Section Blockers.
 
   (* only the eventual class (drift, static drift) may override pod-level blockers, and only with a TGP *)
   Lemma pod_blockers_l :
-    exists n c, In n (w_nodes w) /\ s_id n = id /\ s_claim n = Some c /\
+    exists n c, In n (final_nodes w) /\ s_id n = id /\ s_claim n = Some c /\
       (pod_blocked now (w_pdbs w) n -> (m = Drift \/ m = StaticDrift) /\ c_tgp c = true).
   Proof.
     destruct (candidate_implies_eligible_l w m ids id wf Hget Hin) as [n [Hn [Hid He]]].
@@ -376,7 +376,7 @@ Section Blockers.
 
   Lemma graceful_never_blocked_l :
     eventual m = false ->
-    exists n, In n (w_nodes w) /\ s_id n = id /\ ~ pod_blocked now (w_pdbs w) n.
+    exists n, In n (final_nodes w) /\ s_id n = id /\ ~ pod_blocked now (w_pdbs w) n.
   Proof.
     intros Hm. destruct (candidate_implies_eligible_l w m ids id wf Hget Hin) as [n [Hn [Hid He]]].
     destruct He as [c [k [_ [_ [_ [_ [_ [_ [_ [Hp _]]]]]]]]]].
@@ -385,7 +385,7 @@ Section Blockers.
 
   Lemma consolidation_requires_l :
     is_consolidation m = true ->
-    exists n c pl, In n (w_nodes w) /\ s_id n = id /\ s_claim n = Some c /\ o_pool w n = Some pl /\
+    exists n c pl, In n (final_nodes w) /\ s_id n = id /\ s_claim n = Some c /\ o_pool w n = Some pl /\
       c_consolidatable c = Some CTrue /\ pl_static pl = false /\ (exists a, pl_after pl = Some a) /\
       (m <> Emptiness -> ~ empty n /\ pl_policy pl <> "WhenEmpty") /\
       (m = Emptiness -> empty n /\ s_buffer n <= 0).
@@ -400,14 +400,16 @@ End Blockers.
 
 (* ------------------------------------------------------------------ histories of the in-memory protection state *)
 
-(* what a history does to one node: its projection *)
+(* what a history does to one cluster-state entry: its projection *)
 Definition step1 (bm : Z) (id : string) (st : Z * mem) (o : op) : Z * mem :=
   match o with
-  | OMark i => (fst st, if String.eqb i id then mkMem true (m_until (snd st)) else snd st)
-  | OUnmark i => (fst st, if String.eqb i id then mkMem false (m_until (snd st)) else snd st)
-  | ONominate i => (fst st, if String.eqb i id then mkMem (m_marked (snd st)) (Some (fst st + nom_window bm)) else snd st)
+  | OMark i => (fst st, if String.eqb i id then f_mark (snd st) else snd st)
+  | OUnmark i => (fst st, if String.eqb i id then f_unmark (snd st) else snd st)
+  | ONominate i => (fst st, if String.eqb i id then f_nominate (fst st + nom_window bm) (snd st) else snd st)
   | OTick dt => (fst st + dt, snd st)
-  | ORefresh _ => st
+  | ODelNode i => (fst st, if String.eqb i id then f_delnode (snd st) else snd st)
+  | ODelClaim i => (fst st, if String.eqb i id then f_delclaim (snd st) else snd st)
+  | ORefresh i c k => (fst st, if String.eqb i id then f_refresh c k (snd st) else snd st)
   end.
 
 Lemma upd_keys i f ms : map fst (upd i f ms) = map fst ms.
@@ -444,83 +446,150 @@ Qed.
 
 Definition no_unmark (id : string) (ops : list op) : Prop := forall i, In (OUnmark i) ops -> i <> id.
 Definition no_nominate (id : string) (ops : list op) : Prop := forall i, In (ONominate i) ops -> i <> id.
+(* the entry is not removed from (nor stripped of an object in) cluster state *)
+Definition no_delete (id : string) (ops : list op) : Prop :=
+  forall i, (In (ODelNode i) ops \/ In (ODelClaim i) ops) -> i <> id.
 Definition ticks (ops : list op) : Z := fold_right (fun o acc => match o with OTick dt => dt + acc | _ => acc end) 0 ops.
+Definition ids_unique (w : world) : Prop := NoDup (map s_id (w_nodes w)).   (* cluster.nodes is a map keyed by providerID *)
 
-Lemma marked_preserved bm id ops : forall st, no_unmark id ops -> m_marked (snd st) = true ->
-  m_marked (snd (fold_left (step1 bm id) ops st)) = true.
+Lemma no_delete_tail id o ops : no_delete id (o :: ops) -> no_delete id ops.
+Proof. intros H i [Hi|Hi]; apply H; [left|right]; now right. Qed.
+
+(* without deletions an entry that exists keeps existing (updates only add objects) *)
+Lemma alive_preserved bm id ops : forall st, no_delete id ops -> alive (snd st) = true ->
+  alive (snd (fold_left (step1 bm id) ops st)) = true.
 Proof.
-  induction ops as [|o ops IH]; intros st Hno Hm; simpl; [exact Hm|].
-  apply IH.
-  - intros i Hi. apply Hno. now right.
-  - destruct o; simpl; try exact Hm.
-    + destruct (String.eqb id0 id); [reflexivity|exact Hm].
-    + destruct (String.eqb_spec id0 id) as [E|NE]; [|exact Hm]. exfalso. apply (Hno id0); [now left|exact E].
-    + destruct (String.eqb id0 id); exact Hm.
+  induction ops as [|o ops IH]; intros st Hno Ha; simpl; [exact Ha|].
+  apply IH; [eapply no_delete_tail; exact Hno|].
+  destruct o; simpl; try exact Ha; destruct (String.eqb_spec id0 id) as [E|NE]; try exact Ha.
+  - unfold f_mark. now rewrite Ha.
+  - unfold f_unmark. now rewrite Ha.
+  - unfold f_nominate. now rewrite Ha.
+  - exfalso. apply (Hno id0); [left; now left|exact E].
+  - exfalso. apply (Hno id0); [right; now left|exact E].
+  - unfold f_refresh, alive in *. simpl. apply orb_true_iff in Ha.
+    destruct Ha as [Ha|Ha]; rewrite Ha; simpl; rewrite ?orb_true_r; reflexivity.
 Qed.
 
-Lemma until_preserved bm id ops : forall st, no_nominate id ops ->
+Lemma marked_preserved bm id ops : forall st, no_unmark id ops -> no_delete id ops -> m_marked (snd st) = true ->
+  m_marked (snd (fold_left (step1 bm id) ops st)) = true.
+Proof.
+  induction ops as [|o ops IH]; intros st Hno Hnd Hm; simpl; [exact Hm|].
+  apply IH.
+  - intros i Hi. apply Hno. now right.
+  - eapply no_delete_tail; exact Hnd.
+  - destruct o; simpl; try exact Hm; destruct (String.eqb_spec id0 id) as [E|NE]; try exact Hm.
+    + unfold f_mark. destruct (alive (snd st)); [reflexivity|exact Hm].
+    + exfalso. apply (Hno id0); [now left|exact E].
+    + unfold f_nominate. destruct (alive (snd st)); exact Hm.
+    + exfalso. apply (Hnd id0); [left; now left|exact E].
+    + exfalso. apply (Hnd id0); [right; now left|exact E].
+Qed.
+
+Lemma until_preserved bm id ops : forall st, no_nominate id ops -> no_delete id ops ->
   m_until (snd (fold_left (step1 bm id) ops st)) = m_until (snd st) /\
   fst (fold_left (step1 bm id) ops st) = fst st + ticks ops.
 Proof.
-  induction ops as [|o ops IH]; intros st Hno; simpl; [split; [reflexivity|lia]|].
+  induction ops as [|o ops IH]; intros st Hno Hnd; simpl; [split; [reflexivity|lia]|].
   assert (Hno' : no_nominate id ops) by (intros i Hi; apply Hno; now right).
-  destruct (IH (step1 bm id st o) Hno') as [H1 H2]. rewrite H1, H2.
-  destruct o; simpl; try (split; [reflexivity|lia]).
-  - destruct (String.eqb id0 id); simpl; split; try reflexivity; lia.
-  - destruct (String.eqb id0 id); simpl; split; try reflexivity; lia.
-  - destruct (String.eqb_spec id0 id) as [E|NE]; [|split; [reflexivity|lia]].
-    exfalso. apply (Hno id0); [now left|exact E].
+  destruct (IH (step1 bm id st o) Hno' (no_delete_tail _ _ _ Hnd)) as [H1 H2]. rewrite H1, H2.
+  destruct o; simpl; try (split; [reflexivity|lia]); destruct (String.eqb_spec id0 id) as [E|NE];
+    try (split; [reflexivity|lia]).
+  - unfold f_mark. destruct (alive (snd st)); simpl; split; try reflexivity; lia.
+  - unfold f_unmark. destruct (alive (snd st)); simpl; split; try reflexivity; lia.
+  - exfalso. apply (Hno id0); [now left|exact E].
+  - exfalso. apply (Hnd id0); [left; now left|exact E].
+  - exfalso. apply (Hnd id0); [right; now left|exact E].
 Qed.
 
-Lemma final_proj w n : In n (w_nodes w) ->
-  (d_now (final w), mem_of (d_mem (final w)) (s_id n)) = fold_left (step1 (w_bm w) (s_id n)) (w_ops w) (w_t0 w, mem0).
+Lemma mem_of_init nodes n : NoDup (map s_id nodes) -> In n nodes ->
+  mem_of (map (fun n0 => (s_id n0, mem_init n0)) nodes) (s_id n) = mem_init n.
 Proof.
-  intros Hn. unfold final.
+  induction nodes as [|a l IH]; simpl; [tauto|]. intros Hnd [E|Hin].
+  - subst a. now rewrite String.eqb_refl.
+  - inversion Hnd as [|x l' Hx Hl]; subst.
+    destruct (String.eqb_spec (s_id n) (s_id a)) as [E|NE]; [|now apply IH].
+    exfalso. apply Hx. rewrite <- E. apply in_map_iff. exists n. split; [reflexivity|exact Hin].
+Qed.
+
+Lemma final_proj w n : ids_unique w -> In n (w_nodes w) ->
+  (d_now (final w), mem_of (d_mem (final w)) (s_id n))
+  = fold_left (step1 (w_bm w) (s_id n)) (w_ops w) (w_t0 w, mem_init n).
+Proof.
+  intros Hu Hn. unfold final.
   assert (Hk : In (s_id n) (map fst (d_mem (init_dyn w)))).
   { simpl. rewrite map_map. simpl. apply in_map_iff. exists n. split; [reflexivity|exact Hn]. }
-  rewrite (run_proj _ _ _ _ Hk). simpl.
-  replace (mem_of (map (fun n0 => (s_id n0, mem0)) (w_nodes w)) (s_id n)) with mem0; [reflexivity|].
-  clear Hk Hn. induction (w_nodes w) as [|a l IH]; simpl; [reflexivity|].
-  destruct (String.eqb (s_id n) (s_id a)); [reflexivity|exact IH].
+  rewrite (run_proj _ _ _ _ Hk). simpl. now rewrite (mem_of_init _ _ Hu Hn).
 Qed.
 
-(* A node marked for deletion (and not unmarked since) is no candidate of any method, whatever else happened. *)
-Theorem marked_protects_l : forall w m ids id ops1 ops2,
-  pdbs_wf w -> get_candidates w m = Some ids ->
-  w_ops w = (ops1 ++ OMark id :: ops2)%list -> no_unmark id ops2 -> ~ In id ids.
+(* an eligible node of the final state comes from a described node whose NodeClaim is in cluster state *)
+Lemma final_node_origin w m n' : In n' (final_nodes w) -> eligible w (final w) m n' ->
+  exists n, In n (w_nodes w) /\ s_id n = s_id n' /\ m_claim (mem_of (d_mem (final w)) (s_id n)) = true.
 Proof.
-  intros w m ids id ops1 ops2 wf Hget Hops Hno Hin.
-  destruct (candidate_implies_eligible_l w m ids id wf Hget Hin) as [n [Hn [Hid He]]].
+  intros Hin He. unfold final_nodes in Hin. apply in_map_iff in Hin. destruct Hin as [n [E Hn]]. subst n'.
+  exists n. split; [exact Hn|]. split; [reflexivity|].
+  destruct He as [c [k [Hc _]]]. simpl in Hc.
+  destruct (m_claim (mem_of (d_mem (final w)) (s_id n))); [reflexivity|discriminate].
+Qed.
+
+(* A node marked for deletion (and not unmarked since) is no candidate of any method, whatever else happened
+   to an entry that stays in cluster state - including updates from new Node / NodeClaim objects. *)
+Theorem marked_protects_l : forall w m ids id ops1 ops2,
+  pdbs_wf w -> ids_unique w -> get_candidates w m = Some ids ->
+  (forall n, In n (w_nodes w) -> s_id n = id -> alive (mem_init n) = true) ->
+  w_ops w = (ops1 ++ OMark id :: ops2)%list -> no_unmark id ops2 -> no_delete id (w_ops w) -> ~ In id ids.
+Proof.
+  intros w m ids id ops1 ops2 wf Hu Hget Hal Hops Hno Hnd Hin.
+  destruct (candidate_implies_eligible_l w m ids id wf Hget Hin) as [n' [Hn' [Hid' He]]].
+  destruct (final_node_origin w m n' Hn' He) as [n [Hn [Hid _]]].
   destruct He as [c [k [_ [_ [_ [Hdel _]]]]]]. apply Hdel. left.
-  pose proof (final_proj w n Hn) as Hp. rewrite Hops, fold_left_app in Hp. cbn [fold_left] in Hp.
+  rewrite Hid' in Hid. rewrite Hid'.
+  pose proof (final_proj w n Hu Hn) as Hp. rewrite Hops, fold_left_app in Hp. cbn [fold_left] in Hp.
   rewrite Hid in Hp.
-  set (st1 := fold_left (step1 (w_bm w) id) ops1 (w_t0 w, mem0)) in Hp.
+  set (st1 := fold_left (step1 (w_bm w) id) ops1 (w_t0 w, mem_init n)) in Hp.
+  assert (Hnd1 : no_delete id ops1).
+  { intros i Hi. apply Hnd. rewrite Hops. destruct Hi as [Hi|Hi]; [left|right]; apply in_or_app; now left. }
+  assert (Hnd2 : no_delete id ops2).
+  { intros i Hi. apply Hnd. rewrite Hops. destruct Hi as [Hi|Hi]; [left|right]; apply in_or_app; right; now right. }
+  assert (Ha1 : alive (snd st1) = true) by (apply alive_preserved; [exact Hnd1|simpl; now apply Hal]).
   assert (Hm : m_marked (snd (fold_left (step1 (w_bm w) id) ops2 (step1 (w_bm w) id st1 (OMark id)))) = true).
-  { apply marked_preserved; [exact Hno|]. simpl. now rewrite String.eqb_refl. }
-  rewrite <- Hp in Hm. simpl in Hm. rewrite Hid. exact Hm.
+  { apply marked_preserved; [exact Hno|exact Hnd2|]. simpl. rewrite String.eqb_refl. unfold f_mark. now rewrite Ha1. }
+  rewrite <- Hp in Hm. simpl in Hm. exact Hm.
 Qed.
 
 (* A node nominated for pending pods is no candidate of any method until the nomination window
-   max(2*BatchMaxDuration, 10s) has passed, whatever else happened in between. *)
+   max(2*BatchMaxDuration, 10s) has passed, whatever else happened in between to an entry that stays. *)
 Theorem nominated_protects_l : forall w m ids id ops1 ops2,
-  pdbs_wf w -> get_candidates w m = Some ids ->
-  w_ops w = (ops1 ++ ONominate id :: ops2)%list -> no_nominate id ops2 -> ticks ops2 < nom_window (w_bm w) ->
-  ~ In id ids.
+  pdbs_wf w -> ids_unique w -> get_candidates w m = Some ids ->
+  (forall n, In n (w_nodes w) -> s_id n = id -> alive (mem_init n) = true) ->
+  w_ops w = (ops1 ++ ONominate id :: ops2)%list -> no_nominate id ops2 -> no_delete id (w_ops w) ->
+  ticks ops2 < nom_window (w_bm w) -> ~ In id ids.
 Proof.
-  intros w m ids id ops1 ops2 wf Hget Hops Hno Ht Hin.
-  destruct (candidate_implies_eligible_l w m ids id wf Hget Hin) as [n [Hn [Hid He]]].
+  intros w m ids id ops1 ops2 wf Hu Hget Hal Hops Hno Hnd Ht Hin.
+  destruct (candidate_implies_eligible_l w m ids id wf Hget Hin) as [n' [Hn' [Hid' He]]].
+  destruct (final_node_origin w m n' Hn' He) as [n [Hn [Hid _]]].
   destruct He as [c [k [_ [_ [_ [_ [Hnom _]]]]]]]. apply Hnom.
-  pose proof (final_proj w n Hn) as Hp. rewrite Hops, fold_left_app in Hp. cbn [fold_left] in Hp.
+  rewrite Hid' in Hid. rewrite Hid'.
+  pose proof (final_proj w n Hu Hn) as Hp. rewrite Hops, fold_left_app in Hp. cbn [fold_left] in Hp.
   rewrite Hid in Hp.
-  set (st1 := fold_left (step1 (w_bm w) id) ops1 (w_t0 w, mem0)) in Hp.
-  destruct (until_preserved (w_bm w) id ops2 (step1 (w_bm w) id st1 (ONominate id)) Hno) as [H1 H2].
-  rewrite <- Hp in H1, H2. simpl in H1, H2. rewrite String.eqb_refl in H1. simpl in H1.
-  rewrite Hid. exists (fst st1 + nom_window (w_bm w)). split; [exact H1|]. rewrite H2. lia.
+  set (st1 := fold_left (step1 (w_bm w) id) ops1 (w_t0 w, mem_init n)) in Hp.
+  assert (Hnd1 : no_delete id ops1).
+  { intros i Hi. apply Hnd. rewrite Hops. destruct Hi as [Hi|Hi]; [left|right]; apply in_or_app; now left. }
+  assert (Hnd2 : no_delete id ops2).
+  { intros i Hi. apply Hnd. rewrite Hops. destruct Hi as [Hi|Hi]; [left|right]; apply in_or_app; right; now right. }
+  assert (Ha1 : alive (snd st1) = true) by (apply alive_preserved; [exact Hnd1|simpl; now apply Hal]).
+  destruct (until_preserved (w_bm w) id ops2 (step1 (w_bm w) id st1 (ONominate id)) Hno Hnd2) as [H1 H2].
+  rewrite <- Hp in H1, H2. simpl in H1, H2. rewrite String.eqb_refl in H1. unfold f_nominate in H1. rewrite Ha1 in H1.
+  simpl in H1.
+  exists (fst st1 + nom_window (w_bm w)). split; [exact H1|]. rewrite H2. lia.
 Qed.
 
-(* ... and refreshing the StateNode from new Node / NodeClaim objects changes nothing *)
-Lemma refresh_is_noop bm d id : step bm d (ORefresh id) = d.
-Proof. reflexivity. Qed.
+(* Deleting the Node object of a managed entry (its NodeClaim stays) keeps the protection memory, and so does
+   re-adding it; only the removal of the whole entry forgets it (there is then no node to protect). *)
+Lemma delete_keeps_memory m : m_claim m = true -> m_node m = true ->
+  m_marked (f_refresh true true (f_delnode m)) = m_marked m /\ m_until (f_refresh true true (f_delnode m)) = m_until m /\
+  m_marked (f_refresh true true (f_delclaim m)) = m_marked m /\ m_until (f_refresh true true (f_delclaim m)) = m_until m.
+Proof. intros Hc Hk. unfold f_delnode, f_delclaim, f_refresh. rewrite Hc, Hk. simpl. auto. Qed.
 
 (* ------------------------------------------------------------------ the Consolidatable condition *)
 
@@ -589,7 +658,7 @@ Definition n_zero_cost : snode :=
 Definition w_zero_cost : world := mkWorld 0 10000000000 FNone [pl_wempty] [] [n_zero_cost] [OTick 100000000000].
 
 Lemma when_empty_literal_refuted_l :
-  exists w n pl, get_candidates w Emptiness = Some [s_id n] /\ In n (w_nodes w) /\ o_pool w n = Some pl /\
+  exists w n pl, get_candidates w Emptiness = Some [s_id n] /\ In n (final_nodes w) /\ o_pool w n = Some pl /\
                  pl_policy pl = "WhenEmpty" /\ ~ literally_empty n.
 Proof.
   exists w_zero_cost, n_zero_cost, pl_wempty. split; [vm_compute; reflexivity|].
@@ -609,7 +678,7 @@ Qed.
 
 Lemma when_empty_literal_partial_l : forall w m ids id, pdbs_wf w -> get_candidates w m = Some ids -> In id ids ->
   is_consolidation m = true ->
-  exists n pl, In n (w_nodes w) /\ s_id n = id /\ o_pool w n = Some pl /\
+  exists n pl, In n (final_nodes w) /\ s_id n = id /\ o_pool w n = Some pl /\
     (positive_costs n -> (m = Emptiness -> literally_empty n) /\
                          (m <> Emptiness -> ~ literally_empty n /\ pl_policy pl <> "WhenEmpty")).
 Proof.
@@ -634,7 +703,7 @@ Definition w_unregistered_dnd : world :=
     [n_unregistered_dnd] [OTick 100000000000].
 
 Lemma node_dnd_literal_refuted_l :
-  exists w n k, get_candidates w Drift = Some [s_id n] /\ In n (w_nodes w) /\ s_node n = Some k /\
+  exists w n k, get_candidates w Drift = Some [s_id n] /\ In n (final_nodes w) /\ s_node n = Some k /\
                 get K_DND (k_annos k) = "true".
 Proof.
   exists w_unregistered_dnd, n_unregistered_dnd, k_unregistered_dnd. split; [vm_compute; reflexivity|].
@@ -642,7 +711,7 @@ Proof.
 Qed.
 
 Lemma node_dnd_literal_partial_l : forall w m ids id, pdbs_wf w -> get_candidates w m = Some ids -> In id ids ->
-  exists n k, In n (w_nodes w) /\ s_id n = id /\ s_node n = Some k /\
+  exists n k, In n (final_nodes w) /\ s_id n = id /\ s_node n = Some k /\
     (get K_REG (k_labels k) = "true" -> get K_DND (k_annos k) <> "true").
 Proof.
   intros w m ids id wf Hget Hin.
